@@ -18,7 +18,7 @@ mod test;
 
 pub use def::{DatePattern, Def, DefEntry, Defs, ExprString, Property};
 pub use expr::{Expr, Precedence};
-pub(crate) use expr::starts_with_sign;
+pub(crate) use expr::{escape_quote, starts_with_sign};
 pub use query::{Conversion, Query};
 
 #[derive(Debug, Clone, Serialize, Copy, Eq, PartialEq)]
